@@ -22,6 +22,7 @@ Definition run_line (l : string) : string :=
   else if String.eqb k "res" then Out.OutDriver.run_line f
   else if String.eqb k "irc" then Irc.IrcDriver.run_line f
   else if String.eqb k "irctable" then Irc.IrcDriver.run_line f
+  else if String.eqb k "ircline" then Irc.IrcDriver.run_line f
   else if String.eqb k "api" then Api.ApiDriver.run_line f
   else if String.eqb k "post" then Api.ApiDriver.run_line f
   else if String.eqb k "cfg" then Api.ApiDriver.run_line f
